@@ -6,7 +6,7 @@ def run(c, replay):
     ov = c.harness_overlay("src", FILES)
     b = c.build_test("src", ov)
     c.bounds = dict(sessions_per_chain=3, steps_per_session=c.pick(4, 5),
-                    steps="previous, next, edit-to-x, edit-to-empty (thorough: + edit-to-a)",
+                    steps="previous, next, edit-to-x, edit-to-empty, edit-back-to-the-stored-text (thorough: + edit-to-a)",
                     session_end="abort (nothing submitted), accept current input, accept '', accept a, accept b, accept 'a b'",
                     history_size=c.pick("1 2 3", "1 2 3 4"),
                     initial_files=c.pick("missing, empty, 'a', 'a\\n', 'a\\nb\\n', 'a\\nb\\nc\\nd\\n', '\\n', 'a\\n\\nb\\n'",
@@ -25,7 +25,7 @@ def run(c, replay):
     if replay:
         import json
         layer = json.load(open(replay)).get("layer", "sessions")
-        test = {"sessions": "TestVerif_C18_sessions", "options": "TestVerif_C18_options"}[layer]
+        test = {"sessions": "TestVerif_C18_sessions", "options": "TestVerif_C18_options", "navigation": "TestVerif_C18_navigation"}[layer]
         c.run_layer(b, test, layer, replay=replay, deadline_s=120)
         return
     c.run_layer(b, "TestVerif_C18_sessions", "sessions", deadline_s=c.pick(90, 420), env={"GOMAXPROCS": "2"},
@@ -35,3 +35,6 @@ def run(c, replay):
     c.run_layer(b, "TestVerif_C18_options", "options", deadline_s=c.pick(30, 60),
                 rule="ParseOptions with --history/--history-size in 6 orders/forms x initial files x sizes: loaded entries and cap as the model; "
                      "non-trivial = the cap actually cuts")
+    c.run_layer(b, "TestVerif_C18_navigation", "navigation", deadline_s=c.pick(60, 400), env={"GOMAXPROCS": "2"},
+                rule="ONE session, BFS with state deduplication up to %d steps over previous / next / edit-to-x / edit-to-empty / edit-back-to-the-stored-text on 4 files x 2 sizes: "
+                     "every string returned by previous()/next() equals the model's (stored text or the pending edit of that entry), the file never changes" % c.pick(9, 12))
